@@ -142,7 +142,8 @@ def check_history(ctx: Ctx, case, baselines=None) -> None:
 def variant(draw, base_spec, all_specs) -> tuple[str, str]:
     """Returns (kind, text) — a chart text related to ``base_spec``."""
     kind = draw(st.sampled_from(["res", "res", "sustain", "content", "invalid_forced", "invalid_nores",
-                                 "invalid_header", "invalid_dup_tempo", "same", "unrelated"]))
+                                 "invalid_header", "invalid_dup_tempo", "invalid_midway", "invalid_midway",
+                                 "same", "unrelated"]))
     spec = copy.deepcopy(base_spec)
     if kind == "res":
         res = spec["res"]
@@ -177,6 +178,30 @@ def variant(draw, base_spec, all_specs) -> tuple[str, str]:
         spec["song"] = [["Name", '"x"']]
     elif kind == "invalid_header":
         return kind, "garbage first line\n" + S.render(spec)
+    elif kind == "invalid_midway":
+        # a parse that fails in the MIDDLE of building some event list (after partial work was done):
+        # an event whose tick runs backwards across a tempo change raises ValueError from the lookup
+        last_b = max(it[0] for it in spec["sync"] if it[1] == "B")
+        t2 = max([it[0] for it in spec["sync"]] + [e[0] for e in spec["events"]]
+                 + [it[0] + (it[3] if it[1] in ("N", "S") else 0)
+                    for items in spec["tracks"].values() for it in items] + [last_b]) + 50
+        spec["sync"] = spec["sync"] + [[t2, "B", 77000]]
+        where = draw(st.sampled_from(["notes", "notes", "phrases", "track_events", "global", "ts"]))
+        if spec.get("res") and draw(st.booleans()):
+            spec["res"] = draw(st.sampled_from([spec["res"] + 1, 480, 96, 100, 193]))
+        h = next(iter(spec["tracks"]), "ExpertSingle")
+        items = list(spec["tracks"].get(h, []))
+        if where == "notes":
+            items += [[t2 + 10, "N", 0, 0], [t2 + 90, "N", 1, 0], [t2 + 170, "N", 2, 0], [3, "N", 3, 0]]
+        elif where == "phrases":
+            items += [[t2 + 10, "N", 0, 0], [t2 + 10, "S", 2, 5], [2, "S", 2, 5]]
+        elif where == "track_events":
+            items += [[t2 + 10, "E", "solo"], [2, "E", "soloend"]]
+        elif where == "global":
+            spec["events"] = spec["events"] + [[t2 + 5, "section late"], [1, "section early"]]
+        else:
+            spec["sync"] = spec["sync"] + [[t2 + 5, "TS", 3], [1, "TS", 5]]
+        spec["tracks"][h] = items
     elif kind == "invalid_dup_tempo":
         spec["sync"] = spec["sync"] + [[spec["sync"][-1][0], "B", 100000], [0, "B", 1]]
     elif kind == "unrelated":
@@ -186,7 +211,7 @@ def variant(draw, base_spec, all_specs) -> tuple[str, str]:
 
 
 def drive_machine(ctx: Ctx) -> None:
-    n_examples = ctx.pick(12, 150)
+    n_examples = ctx.pick(25, 150)
     baselines: dict = {}
 
     class ParseHistory(RuleBasedStateMachine):
@@ -221,7 +246,7 @@ def drive_machine(ctx: Ctx) -> None:
             self.case["ops"].append(["parse", ti, self._sel(data, ti)])
 
         @rule(data=st.data(), idx=st.lists(st.integers(0, 7), min_size=2, max_size=4),
-              mode=st.sampled_from(["coop", "coop", "os"]),
+              mode=st.sampled_from(os.environ.get("CPV_C17_MODES", "coop,coop,os").split(",")),
               schedule=st.lists(st.tuples(st.integers(0, 3), st.sampled_from([1, 1, 2, 3, 5, 17, 100, 1000])),
                                 min_size=1, max_size=40))
         def parse_threads(self, data, idx, mode, schedule):
